@@ -63,7 +63,7 @@ func (n *global) eval(th *thread, e *env) Value {
 		}
 		return n.prim.val
 	}
-	th.unknownPrim(n.name)
+	th.unknownPrim(n.name + n.note)
 	return Unit
 }
 
